@@ -542,6 +542,11 @@ func (w *World) canonResolved(v ssa.Value) string {
 		if token.IsExported(cal.Name()) {
 			break
 		}
+		// and only helpers that merely compute a value: a helper with effects (it
+		// removes a stake, writes a ledger …) is a step of its own
+		if !w.readOnlyFn(cal, 0) && !w.resolveFallible {
+			break
+		}
 		env := map[*ssa.Parameter]string{}
 		for j, p := range cal.Params {
 			env[p] = w.canonResolved(call.Common().Args[j])
